@@ -88,7 +88,8 @@ def run(R):
         c.need(len(hs) == 1, 'expected one handler')
         h = hs[0]
         eio = [n for n in ast.walk(h) if isinstance(n, ast.If) and 'errno.EIO' in norm(n.test)]
-        ok = len(eio) == 1 and any(isinstance(s, ast.Break) for s in eio[0].body)
+        hn = h.name or 'err'
+        ok = len(eio) == 1 and any(isinstance(s, ast.Break) for s in eio[0].body) and norm(eio[0].test) in ('%s.args[0] == errno.EIO' % hn, '%s.errno == errno.EIO' % hn)
         c.check(ok, cp, h, 'EIO from the child side ends interact (child closed the pty)', kind='ast', tag='eio-break')
         last = h.body[-1]
         c.check(isinstance(last, ast.Raise) and last.exc is None, cp, h, 'other OSErrors propagate', kind='ast', tag='other-raise')
@@ -160,11 +161,18 @@ def check_copy(c, cp, wr):
             is_name(slice_bounds(adv[0].value)[0], nv) and slice_bounds(adv[0].value)[1] is None
         c.check(okc, wr, adv[0] if adv else loops[0], 'exactly the n written bytes are dropped: data = data[n:]', witness=norm(adv[0]) if adv else '', kind='alg', tag='writen-advance')
     t = norm(loops[0].test)
-    c.check(("%s != b''" % dv in t or dv in [x.strip() for x in t.split(' and ')]) and 'self.isalive()' in t, wr, loops[0],
+    tv = loops[0].test
+    okw = isinstance(tv, ast.BoolOp) and isinstance(tv.op, ast.And) and sorted(norm(x) for x in tv.values) in (
+        sorted(["%s != b''" % dv, 'self.isalive()']), sorted([dv, 'self.isalive()']))
+    c.check(okw, wr, loops[0],
             'the loop continues until everything is written (or the child died)', witness=t, kind='ast', tag='writen-until-empty')
 
 
 def check_only_filter(c, cp, g, readnode, sink, v, filt, tag):
+    fa = [m for m in g.nodes if m.kind == 'stmt' and isinstance(m.ast, ast.Assign) and v in assigned_names(m.ast) and isinstance(m.ast.value, ast.Call)
+          and is_name(m.ast.value.func, filt) and len(m.ast.value.args) == 1 and is_name(m.ast.value.args[0], v)
+          and g.path(readnode, m, skip_labels=('exc',)) is not None]
+    c.check(len(fa) == 1, cp, readnode.ast, 'the %s given by the caller is applied to what was read (once)' % filt, witness='%d applications' % len(fa), tag=tag + '-applied')
     mods = [m for m in g.nodes if m.kind == 'stmt' and v in assigned_names(m.ast) and m is not readnode]
     # allowed: data = <filt>(data) under `if <filt>:`; data = data[:i] in the escape branch (checked by D4)
     for m in mods:
@@ -221,6 +229,11 @@ def check_escape(c, f, cp):
     enc = [n for n in iter_nodes(f.node) if isinstance(n, ast.Assign) and 'escape_character' in assigned_names(n)]
     ok = len(enc) == 1 and norm(enc[0].value) == "escape_character.encode('latin-1')"
     c.check(ok, f, enc[0] if enc else None, 'the escape character is converted to one byte (latin-1) for the byte-level comparison', kind='ast', tag='latin1')
+    if enc:
+        gi = f.cfg
+        en_ = gi.node_of_stmt(enc[0])
+        gs_ = [t for t in gi.nodes if t.kind == 'test' and norm(t.ast) == 'escape_character is not None' and en_ in guard_region(gi, t, 'true')]
+        c.check(bool(gs_), f, enc[0], 'the conversion is skipped for escape_character=None (no escape handling)', kind='path', tag='latin1-guard')
 
 
 MUTANTS = [
@@ -238,6 +251,8 @@ MUTANTS = [
     ('stdout-wrong-fd', 'pty_spawn', "                os.write(self.STDOUT_FILENO, data)", "                os.write(self.STDERR_FILENO, data)", 'D3'),
     ('child-chunk-dropped', 'pty_spawn', "                if output_filter:\n                    data = output_filter(data)", "                if output_filter:\n                    data = output_filter(data)\n                if len(data) == 1000:\n                    continue", 'D3'),
     ('filter-before-eof-test', 'pty_spawn', "                if data == b'':\n                    # BSD-style EOF\n                    break\n                if output_filter:\n                    data = output_filter(data)", "                if output_filter:\n                    data = output_filter(data)\n                if data == b'':\n                    # BSD-style EOF\n                    break", 'D6'),
+    ('no-output-filter', 'pty_spawn', "                if output_filter:\n                    data = output_filter(data)\n", "", 'D3'),
+    ('writen-or', 'pty_spawn', "        while data != b'' and self.isalive():", "        while data != b'' or self.isalive():", 'D3'),
     ('eio-raises', 'pty_spawn', "                    if err.args[0] == errno.EIO:\n                        # Linux-style EOF\n                        break\n                    raise\n                if data == b'':", "                    raise\n                if data == b'':", 'D6'),
     ('stdin-strip', 'pty_spawn', "                if input_filter:\n                    data = input_filter(data)\n                i = -1", "                if input_filter:\n                    data = input_filter(data)\n                data = data.replace(b'\\r\\n', b'\\n')\n                i = -1", 'D3'),
 ]
